@@ -1,1 +1,16 @@
 //! Hooks for property C25.
+//!
+//! `PriceFeed::update` is `pub(crate)`; this wrapper only forwards to it.
+use anchor_lang::prelude::*;
+
+use crate::states::oracle::{PriceFeed, PriceFeedPrice};
+
+/// Call `PriceFeed::update` (reads `Clock::get()`).
+pub fn price_feed_update(
+    feed: &mut PriceFeed,
+    price: &PriceFeedPrice,
+    max_future_excess: u64,
+    idempotent: bool,
+) -> Result<bool> {
+    feed.update(price, max_future_excess, idempotent)
+}
